@@ -32,6 +32,9 @@ def init (durable : List Entry) : S := { held := [], missed := [], durable := du
 
 def isHeld (s : S) (k : String) : Bool := s.held.any (·.1 = k)
 
+/-- `read`: besides holding the reservation and agreeing with the persisted log, a lookup is not made by a request
+whose own entry with that key is still queued — otherwise `take; read(miss); commit; read(miss); commit` would be
+accepted (the second lookup misses because the first entry is not persisted yet) and label two entries with one key. -/
 def step (s : S) : GEv → Except String S
   | .take a k ok =>
     if ok then (if isHeld s k then .error s!"guard: {k} reserved twice" else .ok { s with held := (k, a) :: s.held })
@@ -39,6 +42,7 @@ def step (s : S) : GEv → Except String S
   | .read a k found =>
     if (k, a) ∉ s.held then .error s!"guard: lookup of {k} without the reservation"
     else if found ≠ s.durable.any (·.key = k) then .error s!"guard: lookup of {k} disagrees with the persisted log"
+    else if s.pending.any (fun e => e.by_ = a ∧ e.key = k) then .error s!"guard: lookup of {k} by the request whose own entry with it is not yet persisted"
     else if found then .ok s else .ok { s with missed := (a, k) :: s.missed }
   | .commit a k id =>
     if k = "" then .ok { s with pending := s.pending ++ [⟨k, id, a⟩] }
@@ -63,8 +67,8 @@ structure Inv (s : S) : Prop where
   heldNodup : (s.held.map (·.1)).Nodup
   /-- a pending keyed entry is still protected by its producer's reservation -/
   protected_ : ∀ e ∈ s.pending, e.key ≠ "" → (e.key, e.by_) ∈ s.held
-  /-- a request that looked a key up and missed holds it, and no entry carries it -/
-  fresh : ∀ x ∈ s.missed, (x.2, x.1) ∈ s.held ∧ keyed s x.2 = []
+  /-- a request that looked a key up and missed holds it, and no entry carries it (entries without a key do not count) -/
+  fresh : ∀ x ∈ s.missed, (x.2, x.1) ∈ s.held ∧ (x.2 ≠ "" → keyed s x.2 = [])
 
 /-- instances: which events each guard sees -/
 def ikView : Ev → GEv
